@@ -12,9 +12,11 @@ from sa.core import rule, AnalysisError
 from sa.pyindex import get_module, dotted, src, calls_in, kwarg, try_fold
 from sa import flow, stubs
 from refs import cpython312 as REF
+from rules import _util_c13c02c10 as U
 from rules._util_c13c02c10 import (
     bool_formula as _bool_formula, implies_literal as _implies_literal,
-    formula_text as _formula_text)
+    formula_text as _formula_text, formula_atoms as _formula_atoms,
+    formula_eval as _formula_eval)
 
 TECHNIQUE = ("static analysis: table extraction from pep484.py / the bundled "
              "stubs compared with frozen CPython reference tables; call-graph "
@@ -436,6 +438,130 @@ def _match_args_delegates(ctx, fi, fn):
             "parameter annotations: " + "; ".join(problems), {"paths": facts})
 
 
+def _every_annotated_argument_is_matched(ctx, fb, fn):
+  """_match_args_sequentially hands compute_matches one types.Arg for every
+  (name, argument, annotation) of Signature.iter_args whose annotation is not
+  None: an item may be left out only under a condition that implies
+  `<annotation> is None`.  Accumulator loop and comprehension are the same."""
+  what = "_match_args_sequentially"
+  construct = f"{what}:skips"
+  calls = [c for c in calls_in(fn) if isinstance(c.func, ast.Attribute)
+           and c.func.attr == "compute_matches"]
+  if len(calls) != 1 or not calls[0].args or not isinstance(calls[0].args[0], ast.Name):
+    raise AnalysisError(f"{what}: compute_matches(<list>, ..) call not recognised")
+  lst = calls[0].args[0].id
+  binds = [n for n in ast.walk(fn) if isinstance(n, (ast.Assign, ast.AnnAssign))
+           and any(isinstance(t, ast.Name) and t.id == lst for t in
+                   (n.targets if isinstance(n, ast.Assign) else [n.target]))]
+  if len(binds) != 1 or binds[0].value is None:
+    raise AnalysisError(f"{what}: `{lst}` is bound {len(binds)} times")
+  v = binds[0].value
+
+  def item_ok(call, names):
+    """types.Arg(name, arg, f(annotation)) built from the iteration variables."""
+    return isinstance(call, ast.Call) and (dotted(call.func) or "").split(".")[-1] == "Arg" \
+        and len(call.args) == 3 and not call.keywords \
+        and [src(a) for a in call.args[:2]] == names[:2] \
+        and names[2] in {x.id for x in ast.walk(call.args[2]) if isinstance(x, ast.Name)}
+
+  def source_ok(it):
+    return isinstance(it, ast.Call) and isinstance(it.func, ast.Attribute) and \
+        it.func.attr == "iter_args" and src(it.func.value) == "self.signature" and \
+        [src(a) for a in it.args] == [fn.args.args[2].arg] and not it.keywords
+
+  def target_names(t):
+    if isinstance(t, ast.Tuple) and len(t.elts) == 3 and \
+        all(isinstance(e, ast.Name) for e in t.elts):
+      return [e.id for e in t.elts]
+    raise AnalysisError(f"{what}: iteration target `{src(t)}` is not (name, arg, annotation)")
+
+  skips, facts = [], {}
+  if isinstance(v, ast.ListComp):
+    if len(v.generators) != 1 or v.generators[0].is_async:
+      raise AnalysisError(f"{what}: `{src(v)[:60]}` not understood")
+    g = v.generators[0]
+    if not source_ok(g.iter):
+      raise AnalysisError(f"{what}: `{lst}` is not built from self.signature.iter_args(args)")
+    names = target_names(g.target)
+    if not item_ok(v.elt, names):
+      raise AnalysisError(f"{what}: element `{src(v.elt)[:60]}` is not types.Arg(name, arg, annotation)")
+    key = f"{names[2]} is None"
+    f = ("not", ("and", [_bool_formula(c) for c in g.ifs])) if g.ifs else ("const", False)
+    implied = _implies_literal(f, key, True)
+    facts = {"form": "comprehension", "filter": [src(c) for c in g.ifs]}
+    if implied is False:
+      skips.append(" and ".join(src(c) for c in g.ifs))
+  elif (isinstance(v, ast.List) and not v.elts) or (
+      isinstance(v, ast.Call) and dotted(v.func) == "list" and not v.args):
+    loops = [n for n in ast.walk(fn) if isinstance(n, ast.For)
+             and any(isinstance(c, ast.Call) and isinstance(c.func, ast.Attribute)
+                     and c.func.attr in ("append", "extend", "insert")
+                     and isinstance(c.func.value, ast.Name) and c.func.value.id == lst
+                     for c in ast.walk(n))]
+    if len(loops) != 1 or loops[0].orelse or not source_ok(loops[0].iter):
+      raise AnalysisError(
+          f"{what}: `{lst}` is not filled by one loop over self.signature.iter_args(args)")
+    loop = loops[0]
+    names = target_names(loop.target)
+
+    def is_append(st):
+      return isinstance(st, ast.Expr) and isinstance(st.value, ast.Call) and \
+          isinstance(st.value.func, ast.Attribute) and \
+          isinstance(st.value.func.value, ast.Name) and st.value.func.value.id == lst
+    key = f"{names[2]} is None"
+    # the annotation variable may be re-bound (widened) only after the tests
+    seen_paths = []
+    for conds, events, how in U.body_paths(loop.body, is_append, what):
+      if how in ("raise",):
+        continue
+      for e in events:
+        c = e.value
+        if c.func.attr != "append" or len(c.args) != 1 or not item_ok(c.args[0], names):
+          raise AnalysisError(f"{what}: `{src(e)[:60]}` is not {lst}.append(types.Arg(name, arg, annotation))")
+      text = " and ".join(_formula_text(c) for c in conds) or "True"
+      seen_paths.append({"when": text, "appends": len(events), "ends": how})
+      if len(events) > 1:
+        raise AnalysisError(f"{what}: a path appends {len(events)} items")
+      if not events:
+        implied = _implies_literal(("and", conds), key, True)
+        if implied is False:
+          skips.append(text)
+      if how in ("break", "return") :
+        raise AnalysisError(f"{what}: the loop over the arguments is left early ({how})")
+    facts = {"form": "loop", "paths": seen_paths}
+  else:
+    raise AnalysisError(f"{what}: `{lst} = {src(v)[:50]}` not understood")
+  ctx.check(not skips, construct, fb.rel, fn.lineno,
+            "arguments may be skipped only when the parameter is unannotated; "
+            f"an (argument, annotation) pair is left out when {skips}",
+            dict(facts, skips=skips))
+
+
+def _guard_formula(mod, stmt, fn):
+  """Path condition of stmt as a list of propositional formulas."""
+  out = []
+  for t, p in flow.guards(mod.parent, stmt, stop=fn):
+    f = _bool_formula(t)
+    out.append(f if p else ("not", f))
+  return out
+
+
+def _all_envs(atoms):
+  import itertools
+  for vals in itertools.product([False, True], repeat=len(atoms)):
+    yield dict(zip(atoms, vals))
+
+
+def _runs_exactly_under(conj, allowed, env):
+  """The guarded statement depends on the atoms in `allowed` only and runs in
+  the situation `env` (whatever the spelling of the guards)."""
+  f = ("and", conj)
+  atoms = _formula_atoms(f, set())
+  if not atoms <= set(allowed):
+    return False
+  return bool(_formula_eval(f, {**{x: False for x in allowed}, **env}))
+
+
 def _calls_method(fn, name):
   return [c for c in calls_in(fn) if isinstance(c.func, ast.Attribute) and c.func.attr == name]
 
@@ -453,40 +579,66 @@ def r2_3(ctx):
     ctx.check(ok, f"{h}->_return_value", vm.rel, fn.lineno,
               f"{h} must pass the returned value through _return_value on every path")
   rv = vm.func("VirtualMachine._return_value")
+  rparams = [x.arg for x in rv.args.args]
+  if len(rparams) < 3:
+    raise AnalysisError("_return_value(self, state, value) signature not understood")
   cr = [c for c in calls_in(rv) if dotted(c.func) == "self._check_return"]
   ok = len(cr) == 1
   gtxt = []
   if ok:
-    gtxt = flow.guards_txt(vm.parent, vm.enclosing_stmt(cr[0]))
-    allowed = {"self.frame.check_return", "allowed_return"}
-    ok = all(p and t in allowed for t, p in gtxt) and \
-        [src(a) for a in cr[0].args[1:]] == ["var", "allowed_return"]
+    # guards as a formula: only "the frame checks returns" and "there is a
+    # declared return type" (the local handed to _check_return) may decide
+    # whether the check runs, in whatever spelling
+    a3 = cr[0].args
+    conj = _guard_formula(vm, vm.enclosing_stmt(cr[0]), rv)
+    gtxt = [_formula_text(c) for c in conj]
+    ok = len(a3) == 3 and not cr[0].keywords and \
+        isinstance(a3[2], ast.Name) and src(a3[1]) == rparams[2]
+    if ok:
+      allowed = {"self.frame.check_return", a3[2].id}
+      ok = _runs_exactly_under(conj, allowed, {x: True for x in allowed})
   ctx.check(ok, "_return_value->_check_return", vm.rel, rv.lineno,
-            f"_return_value must call _check_return(node, var, allowed_return) "
-            f"whenever the frame checks returns; guards={gtxt}", {"guards": gtxt})
+            f"_return_value must call _check_return(node, <returned value>, "
+            f"<declared return type>) whenever the frame checks returns and a "
+            f"return type is declared; guards={gtxt}", {"guards": gtxt})
   tv = get_module(ctx, "pytype/tracer_vm.py")
   fn = tv.func("CallTracer._check_return")
+  cparams = [x.arg for x in fn.args.args]
+  if len(cparams) != 4:
+    raise AnalysisError("_check_return(self, node, actual, formal) signature not understood")
   m = [c for c in calls_in(fn) if isinstance(c.func, ast.Attribute)
        and c.func.attr in ("compute_one_match", "bad_matches")]
   log = _calls_method(fn, "bad_return_type")
-  ok = len(m) == 1 and len(log) == 1 and [src(a) for a in m[0].args] == ["actual", "expected"]
+  ok = len(m) == 1 and len(log) == 1 and len(m[0].args) == 2 and \
+      src(m[0].args[0]) == cparams[2] and isinstance(m[0].args[1], ast.Name)
   gt = []
+  expected_var = None
   if ok:
-    gt = flow.guards_txt(tv.parent, tv.enclosing_stmt(log[0]))
-    ok = ("match_result.success", False) in gt and \
-        set(gt) <= {("match_result.success", False),
-                    ("self.ctx.options.report_errors", True)} and \
-        "match_result.bad_matches" in [src(a) for a in log[0].args]
+    expected_var = m[0].args[1].id
+    holder = tv.enclosing_stmt(m[0])
+    res = holder.targets[0].id if isinstance(holder, ast.Assign) and \
+        len(holder.targets) == 1 and isinstance(holder.targets[0], ast.Name) else None
+    if res is None:
+      raise AnalysisError("_check_return: the match result is not bound to a local")
+    conj = _guard_formula(tv, tv.enclosing_stmt(log[0]), fn)
+    gt = [_formula_text(c) for c in conj]
+    succ, rep = f"{res}.success", "self.ctx.options.report_errors"
+    ok = _runs_exactly_under(conj, {succ, rep}, {succ: False, rep: True}) and \
+        _implies_literal(("and", conj), succ, False) is True and \
+        f"{res}.bad_matches" in [src(x) for x in log[0].args]
   ctx.check(ok, "_check_return:match-and-log", tv.rel, fn.lineno,
             "CallTracer._check_return must match the actual value against the "
             "expected type and log bad_return_type exactly when the match "
             f"fails; guards={gt}", {"guards": gt})
   exp = {}
   for n in ast.walk(fn):
-    if isinstance(n, ast.Assign) and dotted(n.targets[0]) == "expected":
+    if isinstance(n, ast.Assign) and expected_var is not None and \
+        dotted(n.targets[0]) == expected_var:
       g = [(src(t), p) for t, p in flow.guards(tv.parent, n)]
       exp[src(n.value)] = g
-  ok = "formal" in exp and set(exp) <= {"formal", "self.ctx.convert.bool_type"}
+  if expected_var == cparams[3]:
+    exp.setdefault(cparams[3], [])      # matched against the parameter itself
+  ok = cparams[3] in exp and set(exp) <= {cparams[3], "self.ctx.convert.bool_type"}
   ctx.check(ok, "_check_return:expected-is-annotation", tv.rel, fn.lineno,
             f"the type matched against must be the declared return type; got {exp}",
             {"expected": {k: str(v) for k, v in exp.items()}})
@@ -497,38 +649,71 @@ def r2_3(ctx):
             "CallTracer must derive from VirtualMachine so its _check_return is used")
   # (b) annotated stores
   fn = vm.func("VirtualMachine._apply_annotation")
+  aparams = [x.arg for x in fn.args.args]
+  if len(aparams) != 7 or aparams[-1] != "check_types":
+    raise AnalysisError(
+        "_apply_annotation(self, state, op, name, orig_val, annotations_dict, "
+        "check_types) signature not understood")
   calls = [c for c in calls_in(fn) if (dotted(c.func) or "").endswith("check_annotation_type_mismatch")]
   ok = len(calls) == 1
   gt = []
   if ok:
-    gt = flow.guards_txt(vm.parent, vm.enclosing_stmt(calls[0]))
-    ok = set(gt) <= {("check_types", True), ("final_violation", False)} and \
-        ("check_types", True) in gt
-    a = [src(x) for x in calls[0].args]
-    ok = ok and a[:4] == ["state.node", "name", "typ", "orig_val"]
+    conj = _guard_formula(vm, vm.enclosing_stmt(calls[0]), fn)
+    gt = [_formula_text(c) for c in conj]
+    # the only other thing that may decide: the local under which the store is
+    # reported as an assignment to a Final instead
+    finals = set()
+    for c in calls_in(fn):
+      if (dotted(c.func) or "").endswith("errorlog.assigning_to_final"):
+        for f in _guard_formula(vm, vm.enclosing_stmt(c), fn):
+          finals |= {x for x in _formula_atoms(f, set()) if x != "check_types"}
+    env = {"check_types": True, **{x: False for x in finals}}
+    ok = _runs_exactly_under(conj, set(env), env) and \
+        _implies_literal(("and", conj), "check_types", True) is True
+    a4 = calls[0].args
+    ok = ok and len(a4) >= 4 and src(a4[0]) == f"{aparams[1]}.node" and \
+        src(a4[1]) == aparams[3] and isinstance(a4[2], ast.Name) and \
+        src(a4[3]) == aparams[4]
   ctx.check(ok, "_apply_annotation->check_annotation_type_mismatch", vm.rel, fn.lineno,
             f"an annotated store must check the stored value against the "
             f"annotation; guards={gt}", {"guards": gt})
   cx = get_module(ctx, "pytype/context.py")
   fn = cx.func("Context.check_annotation_type_mismatch")
+  xparams = [x.arg for x in fn.args.args]
+  if xparams[:5] != ["self", "node", "name", "typ", "value"] or "allow_none" not in xparams:
+    raise AnalysisError("check_annotation_type_mismatch signature not understood")
   m = [c for c in calls_in(fn) if isinstance(c.func, ast.Attribute) and c.func.attr == "compute_one_match"]
   log = _calls_method(fn, "annotation_type_mismatch")
   ok = len(m) == 1 and len(log) == 1 and [src(a) for a in m[0].args] == ["value", "typ"]
   if ok:
     st = cx.enclosing_stmt(log[0])
     par = cx.parent.get(st)
-    ok = isinstance(par, ast.For) and src(par.iter) == "bad"
-    defs = [src(n.value) for n in ast.walk(fn) if isinstance(n, ast.Assign)
-            and dotted(n.targets[0]) == "bad"]
-    ok = ok and len(defs) == 1 and defs[0].endswith(".bad_matches") and "compute_one_match" in defs[0]
+    ok = isinstance(par, ast.For) and isinstance(par.iter, ast.Name)
+    if ok:
+      bad_var = par.iter.id
+      defs = [src(n.value) for n in ast.walk(fn) if isinstance(n, ast.Assign)
+              and dotted(n.targets[0]) == bad_var]
+      ok = len(defs) == 1 and defs[0].endswith(".bad_matches") and "compute_one_match" in defs[0]
   ctx.check(ok, "check_annotation_type_mismatch:match-and-log", cx.rel, fn.lineno,
             "every bad match of value against the annotation must be logged "
             "as annotation_type_mismatch")
-  early = [(src(n.test)) for n in fn.body if isinstance(n, ast.If) and flow.terminates(n.body)]
-  ok = set(early) <= {"not typ or not value",
-                      "value.data == [self.convert.ellipsis] or (allow_none and value.data == [self.convert.none])"}
+  # early exits: together they may skip the check only when there is no
+  # annotation / no value, or the value is `...` (or None where allowed)
+  early = [n.test for n in fn.body if isinstance(n, ast.If) and flow.terminates(n.body)]
+  known = {"typ", "value", "allow_none", "value.data == [self.convert.ellipsis]",
+           "value.data == [self.convert.none]"}
+  d = ("or", [_bool_formula(t) for t in early])
+  spec = ("or", [("not", ("atom", "typ")), ("not", ("atom", "value")),
+                 ("atom", "value.data == [self.convert.ellipsis]"),
+                 ("and", [("atom", "allow_none"),
+                          ("atom", "value.data == [self.convert.none]")])])
+  atoms = _formula_atoms(d, set())
+  ok = atoms <= known and all(
+      _formula_eval(spec, env) for env in _all_envs(sorted(known))
+      if _formula_eval(d, env))
+  etxt = [src(t) for t in early]
   ctx.check(ok, "check_annotation_type_mismatch:early-exits", cx.rel, fn.lineno,
-            f"unexpected early exit skips the annotation check: {early}", {"early": early})
+            f"unexpected early exit skips the annotation check: {etxt}", {"early": etxt})
   # (c) arguments
   fi = get_module(ctx, "pytype/abstract/_interpreter_function.py")
   fn = fi.func("InterpreterFunction.match_args")
@@ -550,11 +735,7 @@ def r2_3(ctx):
       any(isinstance(s, ast.Raise) and "WrongArgTypes" in src(s) for s in handlers[0].body)
   ctx.check(ok, "_match_args_sequentially:MatchError->WrongArgTypes", fb.rel, fn.lineno,
             "a failed argument match must be raised as WrongArgTypes")
-  skip = [src(n.test) for n in ast.walk(fn) if isinstance(n, ast.If)
-          and any(isinstance(s, ast.Continue) for s in n.body)]
-  ctx.check(skip == ["formal is None"], "_match_args_sequentially:skips", fb.rel, fn.lineno,
-            f"arguments may be skipped only when the parameter is unannotated; skips={skip}",
-            {"skips": skip})
+  _every_annotated_argument_is_matched(ctx, fb, fn)
   er = get_module(ctx, "pytype/errors/errors.py")
   fn = er.func("VmErrorLog.invalid_function_call")
   arm = None
@@ -945,6 +1126,28 @@ VARIANTS = [
     {"name": "match_args-result-from-unknown-helper", "rule": "R2.3", "file": "pytype/abstract/_interpreter_function.py", "expect": "error",
      "old": "    return super().match_args(node, args, alias_map, match_all_views)",
      "new": "    return self._do_match(node, args, alias_map, match_all_views)"},
+    {"name": "twin-benign-C02-r3-args-to-match-comprehension", "rule": "R2.3", "patch": "benign/C02-r3/patch.diff", "expect": "silent"},
+    {"name": 'twin-args-to-match-comprehension', "rule": "R2.3", "file": "pytype/abstract/_function_base.py", "expect": 'silent',
+     "old": '    args_to_match = []\n    self._check_paramspec_args(args)\n    for name, arg, formal in self.signature.iter_args(args):\n      if formal is None:\n        continue\n      if name in (self.signature.varargs_name, self.signature.kwargs_name):\n        # The annotation is Tuple or Dict, but the passed arg only has to be\n        # Iterable or Mapping.\n        formal = self.ctx.convert.widen_type(formal)\n      args_to_match.append(types.Arg(name, arg, formal))\n',
+     "new": '    self._check_paramspec_args(args)\n    variadic = (self.signature.varargs_name, self.signature.kwargs_name)\n    widen = self.ctx.convert.widen_type\n    args_to_match = [\n        types.Arg(name, arg_var, widen(annot) if name in variadic else annot)\n        for name, arg_var, annot in self.signature.iter_args(args)\n        if annot is not None\n    ]\n'},
+    {"name": 'twin-args-to-match-comprehension-negated-filter', "rule": "R2.3", "file": "pytype/abstract/_function_base.py", "expect": 'silent',
+     "old": '    args_to_match = []\n    self._check_paramspec_args(args)\n    for name, arg, formal in self.signature.iter_args(args):\n      if formal is None:\n        continue\n      if name in (self.signature.varargs_name, self.signature.kwargs_name):\n        # The annotation is Tuple or Dict, but the passed arg only has to be\n        # Iterable or Mapping.\n        formal = self.ctx.convert.widen_type(formal)\n      args_to_match.append(types.Arg(name, arg, formal))\n',
+     "new": '    self._check_paramspec_args(args)\n    variadic = (self.signature.varargs_name, self.signature.kwargs_name)\n    widen = self.ctx.convert.widen_type\n    args_to_match = [\n        types.Arg(name, arg_var, widen(annot) if name in variadic else annot)\n        for name, arg_var, annot in self.signature.iter_args(args)\n        if not annot is None\n    ]\n'},
+    {"name": 'args-to-match-comprehension-skips-variadics', "rule": "R2.3", "file": "pytype/abstract/_function_base.py", "expect": 'fire',
+     "old": '    args_to_match = []\n    self._check_paramspec_args(args)\n    for name, arg, formal in self.signature.iter_args(args):\n      if formal is None:\n        continue\n      if name in (self.signature.varargs_name, self.signature.kwargs_name):\n        # The annotation is Tuple or Dict, but the passed arg only has to be\n        # Iterable or Mapping.\n        formal = self.ctx.convert.widen_type(formal)\n      args_to_match.append(types.Arg(name, arg, formal))\n',
+     "new": '    self._check_paramspec_args(args)\n    variadic = (self.signature.varargs_name, self.signature.kwargs_name)\n    widen = self.ctx.convert.widen_type\n    args_to_match = [\n        types.Arg(name, arg_var, widen(annot) if name in variadic else annot)\n        for name, arg_var, annot in self.signature.iter_args(args)\n        if annot is not None and name not in variadic\n    ]\n'},
+    {"name": 'args-to-match-comprehension-unfiltered-source-swapped', "rule": "R2.3", "file": "pytype/abstract/_function_base.py", "expect": 'error',
+     "old": '    args_to_match = []\n    self._check_paramspec_args(args)\n    for name, arg, formal in self.signature.iter_args(args):\n      if formal is None:\n        continue\n      if name in (self.signature.varargs_name, self.signature.kwargs_name):\n        # The annotation is Tuple or Dict, but the passed arg only has to be\n        # Iterable or Mapping.\n        formal = self.ctx.convert.widen_type(formal)\n      args_to_match.append(types.Arg(name, arg, formal))\n',
+     "new": '    self._check_paramspec_args(args)\n    variadic = (self.signature.varargs_name, self.signature.kwargs_name)\n    widen = self.ctx.convert.widen_type\n    args_to_match = [\n        types.Arg(name, arg_var, widen(annot) if name in variadic else annot)\n        for name, arg_var, annot in self._annotated_args(args)\n        if annot is not None\n    ]\n'},
+    {"name": 'args-to-match-loop-skips-unbound-arguments', "rule": "R2.3", "file": "pytype/abstract/_function_base.py", "expect": 'fire',
+     "old": '    for name, arg, formal in self.signature.iter_args(args):\n      if formal is None:\n        continue\n',
+     "new": '    for name, arg, formal in self.signature.iter_args(args):\n      if formal is None or not arg.bindings:\n        continue\n'},
+    {"name": 'twin-args-to-match-loop-positive-guard', "rule": "R2.3", "file": "pytype/abstract/_function_base.py", "expect": 'silent',
+     "old": '    args_to_match = []\n    self._check_paramspec_args(args)\n    for name, arg, formal in self.signature.iter_args(args):\n      if formal is None:\n        continue\n      if name in (self.signature.varargs_name, self.signature.kwargs_name):\n        # The annotation is Tuple or Dict, but the passed arg only has to be\n        # Iterable or Mapping.\n        formal = self.ctx.convert.widen_type(formal)\n      args_to_match.append(types.Arg(name, arg, formal))\n',
+     "new": '    args_to_match = []\n    self._check_paramspec_args(args)\n    for name, arg, formal in self.signature.iter_args(args):\n      if formal is not None:\n        if name in (self.signature.varargs_name, self.signature.kwargs_name):\n          formal = self.ctx.convert.widen_type(formal)\n        args_to_match.append(types.Arg(name, arg, formal))\n'},
+    {"name": 'args-to-match-loop-stops-at-first-unannotated', "rule": "R2.3", "file": "pytype/abstract/_function_base.py", "expect": 'error',
+     "old": '    for name, arg, formal in self.signature.iter_args(args):\n      if formal is None:\n        continue\n',
+     "new": '    for name, arg, formal in self.signature.iter_args(args):\n      if formal is None:\n        break\n'},
     {"name": "wrong-arg-types-renamed", "rule": "R2.4", "file": "pytype/errors/errors.py", "expect": "fire",
      "old": '  @_error_name("wrong-arg-types")\n  def _wrong_arg_types(', "new": '  @_error_name("wrong-arg-count")\n  def _wrong_arg_types('},
     {"name": "revert-D15-dict-hashable", "rule": "R2.5", "file": stubs.TYPING, "expect": "fire",
